@@ -4,7 +4,8 @@ VH=${VERIF_HOME:-$(cd "$(dirname "$0")/.." && pwd)}
 # env BASE=<commit> to start from another commit (e.g. the original snapshot)
 P=$1; shift
 W=/tmp/try.$$
-git -C /repo worktree add --detach $W ${BASE:-HEAD} >/dev/null 2>&1 || exit 2
+for t in 1 2 3 4 5 6; do git -C /repo worktree add --detach $W ${BASE:-HEAD} >/dev/null 2>&1 && break; sleep 2; done
+[ -d $W ] || { echo "HARNESS-ERROR: could not create the scratch worktree"; exit 2; }
 if [ "$P" != "-" ]; then git -C $W apply "$P" || { echo "patch does not apply"; git -C /repo worktree remove --force $W; exit 2; }; fi
 if [ -n "$HOOKS" ]; then git -C $W cherry-pick -n $HOOKS >/dev/null 2>&1 || echo "hooks cherry-pick failed"; fi
 mkdir -p $W.out
